@@ -35,6 +35,34 @@ CLAUSES = [
     ("(history) later conversions through the dataset's converter reproduce the materialized frame",
      ["reconvert:*", "reconvert-raises:*"], ["again: same / relabelled / permuted / both / same-2 / no-target"]),
 ]
+# Every raise / assert / special-case branch of dataset.py on the paths C02 speaks about, the generator kind that
+# reaches it and the oracle key that notices if it is removed, loosened or replaced by a default (mapper-level
+# guards and casts: harness/c01.py ERROR_PATHS; the same numeric-representation kinds are drawn here).
+ERROR_PATHS = [
+    ("requires_post_materialization: RuntimeError for tensor_frame / col_stats / num_classes before materialize()",
+     "guards: premature-tensor-frame, premature-num-classes", ["guard-not-raised:*"]),
+    ("canonicalize_col_to_pattern: ValueError when an embedder/tokenizer cfg dict misses a column; None-fill for "
+     "col_to_sep / col_to_time_format", "guards: partial-embedder-cfg; forms sep/fmt=partial-dict",
+     ["guard-not-raised:partial-embedder-cfg", "position:*"]),
+    ("canonicalize_and_validate: TypeError for a pattern of the wrong type", "guards: sep-wrong-type", ["guard-not-raised:*"]),
+    ("Dataset.__init__: ValueError split_col missing / listed in col_to_stype / values outside {0,1,2}",
+     "guards: split-col-*; forms.split_col (valid use)", ["guard-not-raised:split-col-*", "position:*"]),
+    ("Dataset.__init__: ValueError for columns missing from the frame; ValueError for a multicategorical target",
+     "guards: missing-column, multilabel-target", ["guard-not-raised:*"]),
+    ("task_type: assert target_col is not None; ValueError 'Task type cannot be inferred' (target neither numerical nor "
+     "categorical)", "guards: task-type-without-target, task-type-timestamp-target", ["guard-not-raised:*", "task-type"]),
+    ("num_classes: ValueError without a COUNT statistic; assert num_classes > 1",
+     "guards: num-classes-numerical-target, num-classes-one-class", ["guard-not-raised:*", "num-classes"]),
+    ("materialize(col_stats=...): assert every column / every required statistic present",
+     "guards: col-stats-missing-column, col-stats-missing-stat", ["guard-not-raised:*"]),
+    ("_get_mapper: NotImplementedError for an unknown stype", "unreachable (stype is a closed enum; Gen/Tables.v)", []),
+    ("__call__: target_col in df -> y, else None; _merge_feat branches (parent present / absent)",
+     "with / without target, again['no-target'], FAMILY frames", ["schema-y", "reconvert:*", "schema-names"]),
+    ("_update_col_stats: EMB_DIM only when an embedding block exists", "FAMILY frames", ["schema-emb-dim"]),
+    ("TensorFrame.validate: ValueError / RuntimeError on misaligned blocks", "every materialization (must NOT fire)",
+     ["materialize-raises:*", "relabel-raises:*", "colperm-raises:*"]),
+    ("get_split / split errors", "not C02 (C09)", []),
+]
 # Public signature (forms drawn by matcoq.draw_forms; histogram in stats()['forms'], fail-closed in sanity()):
 #   Dataset(...) keyword / positional, col_to_stype order, split_col, col_to_sep / col_to_time_format as dict / single /
 #   partial dict / None, embedder / tokenizer cfg as dict / single config; materialize(device None / 'cpu' / torch.device);
@@ -79,7 +107,8 @@ ASSUMPTIONS = [
 ]
 
 LABEL_KINDS = ["offset", "perm", "string", "dup"]
-METHODS = ["assign", "assign", "set_index", "iloc", "concat"]
+METHODS = ["assign", "assign", "set_index", "iloc", "concat", "reverse", "sort_index", "take", "sample", "reindex"]
+DERIVED = ("reverse", "sort_index", "take", "sample", "reindex")     # the labels follow from the pandas operation
 
 
 # ------------------------------------------------------------------ generation
@@ -119,7 +148,11 @@ def gen_case(rng, n=None):
     n = fr["n"]
     rows = list(range(n))
     method = rng.pick(METHODS)
-    if method in ("iloc", "concat"):
+    if method in DERIVED:
+        if rng.chance(0.3):
+            rng.shuffle(rows)
+        kind = "derived"
+    elif method in ("iloc", "concat"):
         rng.shuffle(rows)
         if rng.chance(0.5):
             rows += [rng.randrange(n) for _ in range(rng.randint(1, 2))]      # repeated positions -> duplicated labels
@@ -144,8 +177,15 @@ def gen_case(rng, n=None):
         iname = rng.pick(fr["col_order"])
     forms = M.draw_forms(rng, fr)
     forms["path"] = False
+    for col in fr["cols"]:
+        if col["stype"] == "numerical":
+            M.draw_num_backing(rng, col)
+    q = list(range(len(rows)))
+    rng.shuffle(q)
     return {"frame": fr, "rows": rows, "label_kind": kind, "method": method, "perm": perm,
-            "split": rng.randint(0, len(rows)), "index_name": iname, "unlabeled": unlabeled, "forms": forms}
+            "split": rng.randint(0, len(rows)), "index_name": iname, "unlabeled": unlabeled, "forms": forms,
+            "q": q, "seed": rng.randint(0, 10 ** 6),
+            "layouts": {t: rng.pick([None, None] + M.RESTRIDES) for t in "ABCD"}}
 
 
 def exhaustive_orders(rng):
@@ -164,6 +204,58 @@ def exhaustive_orders(rng):
             rows = [2, 0, 1, 0] if kind == "positions" else [0, 1, 2]
             out.append({"frame": fr, "rows": rows, "label_kind": kind, "method": "iloc" if kind == "positions" else "assign",
                         "perm": list(order), "split": 2, "index_name": [None, "data", "k_y", "index"][len(out) % 4]})
+    return out
+
+
+def run_guards(case):
+    """Documented guards of Dataset (dataset.py raise / assert): each scenario must raise (any exception type)."""
+    import numpy as np
+    import pandas as pd
+    import torch_frame as tfm
+    from torch_frame.config.text_embedder import TextEmbedderConfig
+    from torch_frame.data import Dataset
+    from torch_frame.data.stats import StatType
+    df = pd.DataFrame({"x": [1.0, 2.0, 3.0], "c": ["a", "b", "a"], "m": ["p|q", "q", None], "t": ["u", "v", "w"],
+                       "t2": ["u", "v", "w"], "ts": pd.to_datetime(["2020-01-01", "2021-02-03", "2022-03-04"]),
+                       "one": ["k", "k", "k"], "sp": [0, 1, 2], "bad": [0, 5, 1]})
+    st = {"x": tfm.numerical, "c": tfm.categorical}
+    emb = TextEmbedderConfig(text_embedder=G.StubTextEmbedder(3), batch_size=None)
+
+    def mat(*a, **k):
+        return Dataset(*a, **k).materialize()
+    scen = {
+        "premature-tensor-frame": lambda: Dataset(df, st).tensor_frame,
+        "premature-num-classes": lambda: Dataset(df, st, target_col="c").num_classes,
+        "partial-embedder-cfg": lambda: Dataset(df, {"t": tfm.text_embedded, "t2": tfm.text_embedded, "x": tfm.numerical},
+                                                col_to_text_embedder_cfg={"t": emb}),
+        "sep-wrong-type": lambda: Dataset(df, {"m": tfm.multicategorical, "x": tfm.numerical}, col_to_sep={"m": 7}),
+        "split-col-missing": lambda: Dataset(df, st, split_col="nope"),
+        "split-col-in-stypes": lambda: Dataset(df, dict(st, sp=tfm.numerical), split_col="sp"),
+        "split-col-bad-values": lambda: Dataset(df, st, split_col="bad"),
+        "missing-column": lambda: Dataset(df, dict(st, ghost=tfm.numerical)),
+        "multilabel-target": lambda: Dataset(df, {"m": tfm.multicategorical, "x": tfm.numerical}, target_col="m", col_to_sep="|"),
+        "task-type-without-target": lambda: mat(df, st).task_type,
+        "task-type-timestamp-target": lambda: mat(df, {"x": tfm.numerical, "ts": tfm.timestamp}, target_col="ts").task_type,
+        "num-classes-numerical-target": lambda: mat(df, st, target_col="x").num_classes,
+        "num-classes-one-class": lambda: mat(df, {"x": tfm.numerical, "one": tfm.categorical}, target_col="one").num_classes,
+        "col-stats-missing-column": lambda: Dataset(df, st).materialize(
+            col_stats={"x": {StatType.MEAN: 0.0, StatType.STD: 1.0, StatType.QUANTILES: [0, 0, 0, 0, 0]}}),
+        "col-stats-missing-stat": lambda: Dataset(df, st).materialize(
+            col_stats={"x": {StatType.MEAN: 0.0}, "c": {StatType.COUNT: (["a", "b"], [2, 1])}}),
+    }
+    out = {"ok": True, "raised": {}}
+    for name, f in scen.items():
+        try:
+            f()
+            out["raised"][name] = None
+        except Exception as ex:
+            out["raised"][name] = C.exc_name(ex)
+    # positive controls: the same constructions without the defect must work
+    try:
+        ok = mat(df, st, target_col="c", split_col="sp")
+        out["control"] = [ok.task_type.name, ok.num_classes, ok.tensor_frame.num_rows]
+    except Exception as ex:
+        out["control"] = {"exc": C.exc_name(ex), "msg": str(ex)[:200]}
     return out
 
 
@@ -190,7 +282,7 @@ def run_keyless(case):
 
 def generate(rng, tier):
     n = 150 if tier == "quick" else 5000
-    cases = [gen_case(rng) for _ in range(n)] + [{"kind": "keyless"}]
+    cases = [gen_case(rng) for _ in range(n)] + [{"kind": "keyless"}, {"kind": "guards"}]
     cases += [gen_case(rng, n=r) for r in LARGE_ROWS]
     if tier == "thorough":
         cases += exhaustive_orders(rng)
@@ -210,6 +302,10 @@ def effective(case):
 
 def labels_of(case):
     n = len(case["rows"])
+    if case["label_kind"] == "derived":
+        q = case["q"]
+        return {"reverse": list(range(n))[::-1], "sort_index": list(range(n)), "take": list(q), "sample": list(q),
+                "reindex": [f"k{i}" for i in range(n)]}[case["method"]]
     if case["label_kind"] == "positions":
         return list(case["rows"])
     return G.index_labels(case["label_kind"], n)
@@ -218,14 +314,43 @@ def labels_of(case):
 def relabelled_df(case, eff, col_order):
     import pandas as pd
     name = case.get("index_name")
+    if case["method"] in DERIVED:
+        # pandas operations that reorder rows and leave their own labels behind; `pre` is arranged so that the
+        # result has the rows of the effective frame in order
+        base = M.build_df(eff, col_order=col_order)
+        n = len(base)
+        q = case["q"]
+        inv = [0] * n
+        for i, v in enumerate(q):
+            inv[v] = i
+        m = case["method"]
+        if m == "reverse":
+            out = base.iloc[::-1].reset_index(drop=True).iloc[::-1]
+        elif m == "sort_index":
+            out = base.iloc[q].sort_index()
+        elif m == "take":
+            out = base.iloc[inv].reset_index(drop=True).take(q)
+        elif m == "sample":
+            p = pd.Series(range(n)).sample(frac=1, random_state=case["seed"]).tolist()
+            ip = [0] * n
+            for i, v in enumerate(p):
+                ip[v] = i
+            out = base.iloc[ip].reset_index(drop=True).sample(frac=1, random_state=case["seed"])
+        else:
+            lab = [f"k{i}" for i in range(n)]
+            pre = base.iloc[q].copy()
+            pre.index = [lab[j] for j in q]
+            out = pre.reindex(lab)
+        out.index.name = name
+        return out
     if case["method"] in ("iloc", "concat"):
-        pre = G.build_df(dict(case["frame"], index="range"), col_order=col_order)
+        pre = M.build_df(dict(case["frame"], index="range"), col_order=col_order)
         pre.index.name = name
         if case["method"] == "iloc":
             return pre.iloc[case["rows"]]
         k = case["split"]
         return pd.concat([pre.iloc[case["rows"][:k]], pre.iloc[case["rows"][k:]]])
-    df = G.build_df(eff, col_order=col_order)
+    df = M.build_df(eff, col_order=col_order)
     labels = labels_of(case)
     if case["method"] == "set_index":
         return df.set_index(pd.Index(labels, name=name))
@@ -238,6 +363,7 @@ def materialize(eff, df, forms=None):
     ds, stubs, used = M.make_dataset(eff, df=df, forms=forms)
     dev = M.device_arg(forms.get("device"))
     used["device"] = forms.get("device", "none")
+    used["layout"] = forms.get("_layout") or "plain"
     if dev is None:
         ds.materialize()
     else:
@@ -283,17 +409,21 @@ def materialize(eff, df, forms=None):
 def run(case):
     if case.get("kind") == "keyless":
         return run_keyless(case)
+    if case.get("kind") == "guards":
+        return run_guards(case)
     eff = effective(case)
     obs = {"ok": True, "variants": {}, "again": {}}
-    dfs, tfs, ds_a = {}, {}, None
+    dfs, tfs, dss, ds_a = {}, {}, {}, None
     plans = [("A", "base", case["frame"]["col_order"]), ("B", "relabel", case["frame"]["col_order"]),
              ("C", "base", case["perm"]), ("D", "relabel", case["perm"])]
     for tag, how, order in plans:
         try:
-            df = G.build_df(eff, col_order=order) if how == "base" else relabelled_df(case, eff, order)
+            df = M.build_df(eff, col_order=order) if how == "base" else relabelled_df(case, eff, order)
+            df = M.restride(df, (case.get("layouts") or {}).get(tag))     # an equal frame in another memory layout
             dfs[tag] = df
-            o, ds = materialize(eff, df, case.get("forms"))
+            o, ds = materialize(eff, df, dict(case.get("forms") or {}, _layout=(case.get("layouts") or {}).get(tag)))
             tfs[tag] = ds.tensor_frame
+            dss[tag] = ds
             if tag == "A":
                 o["parsed"] = {c["name"]: M.parse_timestamps(ds.df, c) for c in eff["cols"] if c["stype"] == "timestamp"}
                 ds_a = ds
@@ -336,6 +466,14 @@ def run(case):
                 obs["again"][tag] = {"ok": True, "tf": G.read_tf(tf2), "by_name": by_name}
             except Exception as ex:
                 obs["again"][tag] = {"ok": False, "exc": C.exc_name(ex), "msg": str(ex)[:300], "tb": C.fmt_exc()}
+    # LAST (it edits frames and tensors): the TensorFrame must not share memory with the DataFrame
+    obs["aliasing"] = {}
+    for tag in ("B", "C"):
+        if tag in dss:
+            try:
+                obs["aliasing"][tag] = M.aliasing_probe(dss[tag], G.read_tf)
+            except Exception as ex:
+                obs["aliasing"][tag] = [f"aliasing probe crashed: {C.exc_name(ex)}: {ex}"]
     return obs
 
 
@@ -384,6 +522,13 @@ def oracle(case, obs):
         return dict(key="harness-exc", what=obs["harness_exc"], tb=obs.get("tb"))
     if case.get("kind") == "keyless":
         return None
+    if case.get("kind") == "guards":
+        for name, exc in obs["raised"].items():
+            if exc is None:
+                return dict(key=f"guard-not-raised:{name}", what=f"the documented guard `{name}` of Dataset did not raise")
+        if obs.get("control") != ["BINARY_CLASSIFICATION", 2, 3]:
+            return dict(key="guard-control", what=f"the valid control dataset misbehaves: {obs.get('control')}")
+        return None
     eff = effective(case)
     V = obs["variants"]
     sts = sorted({c["stype"] for c in eff["cols"]})
@@ -427,6 +572,9 @@ def oracle(case, obs):
                or sz["num_cols"] != len(eff["cols"]) - (1 if eff["target"] else 0)):
         return dict(key="sizes", what=f"len(tf) / num_rows / num_cols / dataset sizes {sz} for a frame of {eff['n']} rows "
                     f"and {len(eff['cols']) - (1 if eff['target'] else 0)} feature columns")
+    for tag, pr in obs.get("aliasing", {}).items():
+        if pr:
+            return dict(key="aliases-dataframe", what=f"variant {tag} ({what.get(tag, 'base')}): " + "; ".join(pr))
     # (a') every LATER conversion through the dataset's converter equals the materialized frame, cell by cell and
     #      name by name (without the target column: the same features and no y)
     for tag, o in obs.get("again", {}).items():
@@ -540,7 +688,7 @@ def text_seen(col, cell):
 
 # ------------------------------------------------------------------ shrinking, evidence
 def shrink(case):
-    if case.get("kind") == "keyless":
+    if case.get("kind") in ("keyless", "guards"):
         return
     fr = case["frame"]
     cols = fr["cols"]
@@ -570,6 +718,8 @@ def shrink(case):
 def nontrivial_sig(case, obs):
     if case.get("kind") == "keyless":
         return json.dumps(["keyless", obs.get("orders")])
+    if case.get("kind") == "guards":
+        return json.dumps(["guards", obs.get("raised")])
     if not obs.get("variants", {}).get("A", {}).get("ok"):
         return None
     fr = case["frame"]
@@ -593,6 +743,9 @@ def stats(cases, obss):
         if c.get("kind") == "keyless":
             d["keyless_witness"] = (o or {}).get("orders")
             continue
+        if c.get("kind") == "guards":
+            d["guards"] = (o or {}).get("raised")
+            continue
         d["total"] += 1
         fr = c["frame"]
         d["label_kind"][c["label_kind"]] = d["label_kind"].get(c["label_kind"], 0) + 1
@@ -600,6 +753,8 @@ def stats(cases, obss):
         for v in (o or {}).get("variants", {}).values():
             M.count_forms(d, v.get("used"))
         d["eq_operator_uses"] = d.get("eq_operator_uses", 0) + len((o or {}).get("eq", {}))
+        d["aliasing_probes"] = d.get("aliasing_probes", 0) + len([v for v in (o or {}).get("aliasing", {}).values()
+                                                                   if v is not None])
         iname = c.get("index_name")
         ik = iname if iname in (None, "data", "index", "level_0") else "like-a-column"
         d.setdefault("index_name", {})
@@ -693,6 +848,8 @@ def coq_obs(eff, variant):
 
 
 def coq_term(case, obs):
+    if case.get("kind") == "guards":
+        return None
     if case.get("kind") == "keyless":
         o = obs.get("orders", {})
         f = "(MkFrame [0%nat; 1%nat] {})"
@@ -742,7 +899,7 @@ def sanity(cases, obss):
     for st in G_ALL:
         if d["stypes"].get(st, 0) == 0:
             probs.append(f"stype {st} never drawn")
-    for k in LABEL_KINDS + ["positions"]:
+    for k in LABEL_KINDS + ["positions", "derived"]:
         for nm in ("named", "unnamed"):
             if d.get("label_x_name", {}).get(f"{k}/{nm}", 0) == 0:
                 probs.append(f"labeling {k} with {nm} index never drawn")
@@ -757,7 +914,12 @@ def sanity(cases, obss):
             probs.append(f"target kind {t} never drawn")
     if d["dup_labels"] == 0:
         probs.append("duplicated labels never drawn")
-    for k in M.missing_forms(d, extra=["cfg=single", "cfg=dict"]):
+    if len(d.get("guards") or {}) < 15:
+        probs.append("the Dataset guard scenarios did not run")
+    if d.get("aliasing_probes", 0) == 0:
+        probs.append("aliasing probe never ran")
+    for k in M.missing_forms(d, extra=["cfg=single", "cfg=dict"] + M.REQUIRED_BACKINGS +
+                             ["layout=" + x for x in M.RESTRIDES + ["plain"]]):
         if k != "path=True":
             probs.append(f"signature form {k} never drawn")
     for k in (["rows>=256", "one-row-frame", "embedding-width-1", "missing-cell-on-duplicated-label"] +
